@@ -515,6 +515,30 @@ def dm1_steps(ctx, rule="R-DM1-STEPS"):
             if e.kind == "call" and e.value[1] == ("attr", field("_dtc_dic_list"), "append") and e.value[2] and e.value[2][0][0] == "dict":
                 keys = {k[1] for k, _ in e.value[2][0][1] if is_const(k)}
                 app = app or {"spn", "fmi", "oc"} <= keys
+    # the length plausibility tests of the parser let every legal DM1 through: 2 lamp bytes + 4 bytes per code, one code or more
+    # (and the 8-byte single frame whose last two bytes are padding)
+    from .codec import eval_pred
+    LEN = lensym(field("_data"))
+    rejected = None
+    for r in runs(ctx, f, unroll=1):
+        if r.term != "return" or any(e.kind in ("store", "call") and (e.kind == "store" or "append" in pretty(e.value)) for _, e in r.effects()
+                                      if not (e.kind == "call" and "logger" in pretty(e.value))):
+            continue
+        conds = [(g, p) for g, p in r.guards() if contains(g, LEN)]
+        if not conds or len(conds) != len(r.guards()):
+            continue
+        try:
+            for n_ in [8] + [2 + 4 * k for k in range(1, 64)]:
+                if all(bool(eval_pred(g, {LEN: n_})) == p for g, p in conds):
+                    rejected = (n_, r)
+                    break
+        except (AnalysisError, KeyError, TypeError):
+            continue
+        if rejected:
+            break
+    note("Dm1 parser: every legal length (2 lamp bytes + 4 per code, from one code up; the 8-byte single frame) is accepted", rejected is None, f,
+         rejected[1].recs[-1].ev.node if rejected else f.node,
+         "a DM1 of %s bytes is rejected as malformed: its lamp states and codes never reach the subscribers" % (rejected[0] if rejected else "?"))
     note("Dm1 parser: the code list is started afresh for every message", fresh, f, f.node,
          "the codes of every message received so far pile up: subscribers get codes the sender did not send")
     note("Dm1 parser: one entry with spn / fmi / oc per code", app, f, f.node, "subscribers get an empty code list")
